@@ -20,7 +20,7 @@
 //                             record written by the reference ISO 14496-15 writer (++ ext), read
 //                             by the library; the values marshalled by the library
 //                             -> (0 iso <rdec> bytes)
-//   (9 v)                     NALUType/AVCProfile/AVCLevel/NALUHeader String helpers -> (0)
+//   (9 v)                     NALUType(v)/AVCProfile(v)/AVCLevel(v).String() texts -> (0 s1 s2 s3)
 //   <sdec> = (0 (nalu...)) | (1 code (nalu...)) | (2)            (NALUs appended so far)
 //   <rdec> = (0 ver prof compat level lsm1 (sps...) (pps...)) | (1 code ver ... (pps...)) | (2)
 // Error codes: 1 empty NALU, 2 "requires 6+", 3 "requires 2+ only" (SPS length), 4 "requires n
@@ -615,7 +615,7 @@ func vC12Run(c vSx) (r vC12Res) {
 		if s == "" || h.Size() != 1 || u.Size() != 2 {
 			r.bad("enum-strings", "empty description or wrong Size")
 		}
-		r.obs = vOk()
+		r.obs = vOk(vS(NALUType(v).String()), vS(AVCProfile(v).String()), vS(AVCLevel(v).String()))
 	default:
 		r.obs = vL(vZ(-1))
 	}
@@ -926,6 +926,34 @@ func TestVerifC12(t *testing.T) {
 				runOne(vL(vZ(8), vI(100), vI(0), vI(31), vI(3), vC12BytesSx([][]byte{a.iso()}), vC12BytesSx([][]byte{b.iso()}), vB(nil)))
 			}
 		}
+	}
+	// boundary counts of parameter sets (0, 1, 31 | 32 SPS; 0, 1, 255 | 256 PPS) for every length
+	// size, the NAL units cycling through all 128 (nal_ref_idc, nal_unit_type) pairs
+	pair := 0
+	mk := func(n int) []vC12N {
+		var out []vC12N
+		for i := 0; i < n; i++ {
+			out = append(out, vC12N{ref: pair / 32 % 4, typ: pair % 32, data: k.rnd.bytes(pair % 3)})
+			pair++
+		}
+		return out
+	}
+	for lsm1 := 0; lsm1 < 4; lsm1++ {
+		for _, cnt := range [][2]int{{0, 0}, {1, 0}, {0, 1}, {31, 255}, {31, 0}, {0, 255}, {32, 1}, {1, 256}} {
+			rec := vC12Rec{ver: 1, prof: 66 + lsm1, compat: 192, level: 30 + lsm1, lsm1: lsm1, sps: mk(cnt[0]), pps: mk(cnt[1])}
+			runOne(vC12RecCase(rec))
+			if cnt[0] <= 31 && cnt[1] <= 255 {
+				runOne(vL(vZ(8), vI(rec.prof), vI(rec.compat), vI(rec.level), vI(lsm1), vC12BytesSx(vC12Bytes(rec.sps)), vC12BytesSx(vC12Bytes(rec.pps)), vB([]byte{0xfd, 0xf8, 0xf8, 0})))
+				runOne(vL(vZ(6), vB(vC12IsoRecord(1, rec.prof, rec.compat, rec.level, lsm1, vC12Bytes(rec.sps), vC12Bytes(rec.pps)))))
+			}
+		}
+		// samples: all 128 header pairs in one sample, sizes at the edge of the length field
+		runOne(vL(vZ(3), vI(lsm1), vC12NsSx(mk(128))))
+		edge := []int{255, 65535}[lsm1%2]
+		if lsm1 >= 2 {
+			edge = 65535
+		}
+		runOne(vL(vZ(3), vI(lsm1), vL(vC12N{ref: 2, typ: 1, data: k.rnd.bytes(edge - 1)}.sx(), vC12N{ref: 0, typ: 9, data: nil}.sx(), vC12N{ref: 3, typ: 5, data: k.rnd.bytes(edge)}.sx())))
 	}
 	// exhaustive: all 256 NAL header bytes, all uint8 (and the named uint16) enum values
 	for v := 0; v < 256; v++ {
